@@ -8,6 +8,8 @@ import os
 from .core import VERIF
 
 EXTRA = {"KF-C15-SCAN-HANG": ["findings/c15_scan_hang_svx.txt", "findings/c15_scan_hang_caf_at17.txt", "findings/c15_scan_hang_svx_at10.txt"],
+         "KF-C15-HEADER-POSITION": ["findings/c15_header_position_paf.txt"],
+         "KF-C15-PARTIAL-FRAME": ["findings/c15_partial_frame_write.txt"],
          "KF-C03-pipe-chunk-loop": ["findings/C03-wav-pipe-backjump.txt", "findings/C03-aiff-pipe-backjump.txt", "findings/C03-rf64-pipe-backjump.txt"]}
 
 
@@ -44,7 +46,8 @@ def run(ctx, op_timeout=3):
         if why:
             bad += 1
             ctx.violation("regression-" + name.split(":", 1)[1].replace(":", "-").replace(".txt", ""),
-                          "# the defect repaired by %s is back: %s\n# now: %s\nc15-category hang\n%s" % (kf.get("commit"), kf.get("text"), why, text))
+                          "# the defect repaired by %s is back: %s\n# now: %s\n%s%s" % (kf.get("commit"), kf.get("text"), why,
+                                                                                              "c15-category hang\n" if why.startswith(("TIMEOUT", "CRASH", "ABORT", "no transcript")) else "", text))
     ctx.notes["regression_scripts_run"] = len(jobs)
     ctx.notes["regression_scripts_failed"] = bad
     return bad
